@@ -299,7 +299,7 @@ def main(argv):
             log("harness / repository does not build:\n" + out[-3000:])
             print(f"CHECK-ERROR property={pid} the repository does not compile with the harness")
             return 2
-        modules = cfg["modules"] + ["CantoVerif.Driver." + scfg["driver"].capitalize()]
+        modules = cfg["modules"] + ["CantoVerif.Driver." + scfg["driver"].capitalize()] + cfg.get("extra_modules", [])
         okb, bout, broken = lake_build(modules, clean=(tier == "thorough" and os.environ.get("VERIF_CLEAN", "0") == "1"))
         theorems = cfg["theorems"]
         axioms, aout = ({t: None for t in theorems}, "") if not okb else audit_axioms(theorems, cfg["modules"])
@@ -431,8 +431,9 @@ def main(argv):
     # ---- generator floors: an otherwise green run whose generator stopped reaching the operations is a check error
     accepted = sum(v for k, v in tags.items() if "/ok/" in k)
     if exit_code == 0 and not replay and total_ops > 0:
-        if accepted * 100 < total_ops * 10:
-            print(f"CHECK-ERROR property={pid} accept ratio {accepted}/{total_ops} below the 10% floor")
+        floor = scfg.get("accept_floor", 10)
+        if accepted * 100 < total_ops * floor:
+            print(f"CHECK-ERROR property={pid} accept ratio {accepted}/{total_ops} below the {floor}% floor")
             return 2
 
     # ---- evidence
@@ -465,9 +466,7 @@ def main(argv):
             branch_histogram=dict(tags.most_common()), impl_outcome_histogram=dict(stats.most_common()),
             samples=samples or ["(no accepted operation in this run)"],
         ),
-        assumptions=["EnvOK: GetReservePoolAddr has no collisions on the denominations in play and never yields the module or "
-                     "fee-collector account", "signers are not pool escrow addresses",
-                     "SDK bank keeper behaves as Bank.applyAll (validated on every operation of the run)"],
+        assumptions=cfg.get("assumptions", ["SDK modules behave as modelled (validated on every operation of the run)"]),
         wall_s=round(time.time() - t0, 1), violations=n_viol,
     )
     os.makedirs(os.path.join(VERIF, "evidence"), exist_ok=True)
